@@ -94,6 +94,24 @@ def gen(rng, n):
             # a fault at the end of one lateral: the junction and the other laterals stay energised behind the reclosed breaker
             leaves = [l.name for i, l in enumerate(ps.lines) if i not in set(spec["feeders"][0]["parent"])]
             case["faults"] = {str(rng.randint(1, 2)): [["line", rng.choice(leaves), str(rng.choice([F(2), F(3)]))]]}
+        elif j % 10 == 5:
+            # targeted: a load point whose transformer is failed (its demand is booked when the failure is handled) sits in an island
+            # in which the shedding routine sheds something in the same increment (the whole feeder cut off from the feed)
+            spec["mg"] = None
+            for fd_ in spec["feeders"]:
+                fd_.pop("prod", None)
+            # a chain whose second line has disconnectors at both ends and whose tail has none: a fault on the second line leaves the
+            # tail as one dead island of several buses
+            nb0 = rng.choice([4, 5])
+            fd0 = spec["feeders"][0]
+            fd0["parent"] = [-1] + list(range(nb0 - 1)); fd0["sw"] = [3, 3] + [0] * (nb0 - 2)
+            fd0["cust"] = [1] * nb0; fd0["cost"] = [rng.choice([1, 2, 5]) for _ in range(nb0)]
+            fd0["load"] = [str(rng.choice([F(1, 50), F(1, 20)])) for _ in range(nb0)]
+            fd0.pop("cap", None); fd0.pop("qload", None)
+            spec["tie"] = None; spec["ties"] = []
+            ps = net.build(dict(spec, exact=False))
+            k1 = rng.randint(1, 2)
+            case["faults"] = {str(k1): [["trafo", f"F0B{rng.randrange(2, nb0)}", "4"]], str(k1 + 1): [["line", "F0L1", "2"]]}
         elif j % 10 == 0:
             # targeted: storage as the only source of an island - a microgrid with a battery, cut off from the feed together with
             # (part of) its feeder, or on its own
@@ -108,6 +126,28 @@ def gen(rng, n):
         else:
             case["faults"] = acct.rand_faults(rng, ps, n_inc, ("line", "trafo"), nmax=3)
         cases.append(case)
+    for q in range(max(3, n // 6)):
+        # stand-alone use of shed_energy on a whole system with open lines in the middle of its line list
+        spec = gen_spec(rng, small=False)
+        spec["mg"] = None; spec["tie"] = None; spec["ties"] = []
+        fd = spec["feeders"][0]
+        while len(fd["parent"]) < 4:
+            fd["parent"].append(rng.randrange(len(fd["parent"])))
+            for key, v in (("sw", 1), ("cust", 1), ("load", "1/20"), ("cost", 2)):
+                fd[key].append(v)
+            if fd.get("cap"):
+                fd["cap"].append(None)
+        nb = len(fd["parent"])
+        fd["sw"] = [rng.choice([1, 3]) for _ in range(nb)]
+        fd.pop("prod", None)
+        for other in spec["feeders"][1:]:
+            other.pop("prod", None)
+        # open a line that is not the last one of the feeder's list (and not the first)
+        k = rng.randrange(1, nb - 1)
+        loads = [[str(rng.choice([F(1, 50), F(1, 20), F(1, 10)])), str(rng.choice([F(0), F(1, 100)])), str(rng.choice([1, 2, 5, 10]))] for _ in range(nb + 6)]
+        fd["cap"] = [str(F(3, 50))] + [None] * (nb - 1)          # the feed cannot carry everything: something is shed among the connected buses
+        cases.append({"kind": "lp-run", "spec": spec, "n_inc": 1, "dt": str(rng.choice([F(1), F(1, 2)])), "faults": {},
+                      "direct": {"open": [f"F0L{k}a"], "loads": loads}})
     return cases
 
 
@@ -184,7 +224,28 @@ def run_and_capture(case, observe=None):
     shed.linprog = lin
     simmod.shed_energy = shed_energy
     try:
-        ps, sim = acct.e2e_run(dict(case, save=False), observe=observe)
+        if case.get("direct"):
+            # the documented stand-alone use (as the repository's own shedding tests do): a whole PowerSystem, some of its lines
+            # open, loads and costs set by hand, one load flow from the feed, then shed_energy on the system itself
+            from relsad.loadflow.ac import run_bfs_load_flow
+            from relsad.Time import Time, TimeUnit
+            ps = net.build(dict(case["spec"], exact=False))
+            sim = None
+            k = 0
+            for b in ps.buses:
+                if b.name == "B0":
+                    b.add_load(pload=0, qload=0); b.set_cost(1)
+                    continue
+                ld = case["direct"]["loads"][k % len(case["direct"]["loads"])]; k += 1
+                b.add_load(pload=float(F(ld[0])), qload=float(F(ld[1])))
+                b.set_cost(float(F(ld[2])))
+            for name in case["direct"]["open"]:
+                ps.get_comp(name).open()
+            ps.get_comp("B0").set_slack()
+            run_bfs_load_flow(ps, maxit=5)
+            shed_energy(power_system=ps, dt=Time(float(F(case["dt"])), TimeUnit.HOUR))
+        else:
+            ps, sim = acct.e2e_run(dict(case, save=False), observe=observe)
     finally:
         shed.linprog = orig_lin
         simmod.shed_energy = orig_shed
